@@ -211,7 +211,12 @@ def main(argv=None):
     # ---- confirm suspected violations from a replay file, in a fresh process
     confirmed, unreproduced, known_hits = [], 0, collections.OrderedDict()
     seen_sigs = collections.Counter()
+    not_replayed = 0
     for r in suspects:
+        if len(confirmed) >= 3:
+            # three confirmed violations with replay files decide the run; the rest is only counted
+            not_replayed += 1
+            continue
         sigs = tuple(sorted({v.get("signature", v.get("kind", "?")) for v in r["violations"]}))
         if seen_sigs[sigs] >= 2:
             # this signature set was already replayed twice: count, do not replay again.  Every
@@ -256,6 +261,7 @@ def main(argv=None):
         "cases_lost": len(lost),
         "unreproduced": unreproduced,
         "suspected_violations": len(suspects),
+        "suspects_not_replayed_after_3_confirmed": not_replayed,
         "known_findings_seen": list(known_hits),
     }
     if hasattr(mod, "finalize"):
